@@ -314,7 +314,25 @@ func TestDocumentRespelling(t *testing.T) {
 	rapid.Check(t, func(t *rapid.T) {
 		var sp lib.Spec
 		var doc *ref.Value
-		if fam := rapid.IntRange(0, 2).Draw(t, "family"); fam == 2 {
+		if fam := rapid.IntRange(0, 3).Draw(t, "family"); fam == 3 {
+			// two key shortcuts whose key types overlap: every key goes to the first entry (in the
+			// order of the schema) whose type accepts it - whatever the order of the document
+			opt := rapid.SampledFrom([]string{"", " // {optional: true}"}).Draw(t, "shortcutOpt")
+			sp = lib.Spec{Schema: "{\n  @word: \"s\"," + opt + "\n  @code: 1" + opt + "\n}", Types: []lib.Named{
+				{Name: "@word", Text: "\"abc\" // {regex: \"^[a-z]+$\"}"}, {Name: "@code", Text: "\"a1\" // {regex: \"^[a-z0-9]+$\"}"}}}
+			if rapid.Bool().Draw(t, "swapEntries") {
+				sp.Schema = "{\n  @code: 1," + opt + "\n  @word: \"s\"" + opt + "\n}"
+			}
+			doc = &ref.Value{Kind: ref.KObject}
+			for _, k := range rapid.Permutation([]string{"abc", "zz", "a1", "x9", "q", "7"}).Draw(t, "keys")[:rapid.IntRange(1, 5).Draw(t, "nkeys")] {
+				v := &ref.Value{Kind: ref.KNumber, Tok: "2"}
+				if rapid.Bool().Draw(t, "strVal") {
+					v = &ref.Value{Kind: ref.KString, Tok: `"v"`, Str: "v"}
+				}
+				doc.Members = append(doc.Members, ref.Member{KeyTok: gen.Quote(k), Key: k, Val: v})
+			}
+			run.Label("schema:overlapping-key-shortcuts")
+		} else if fam == 2 {
 			// a type graph: user types, alternatives, key shortcuts (their keys are strings to re-spell too)
 			gc := gen.GenGraph(t, gen.GraphOpts{MaxTypes: 4, Recursion: true}, "g")
 			sp = specOf(gc.Print(nil), gc.G.KeysOptional)
